@@ -109,6 +109,14 @@ theorem C26_bridge_templates :
     sUU = "__".toList ∧ sU2 = "_2".toList := by
   refine ⟨rfl, rfl, rfl, rfl, rfl, ?_, ?_, ?_, ?_, ?_, ?_, ?_⟩ <;> decide
 
+/-- the flag updates `flagColumns` mirrors are the statements currently in `DBIndex.__init__` (source text, extracted on
+    every run): `is_pk`, `is_pk_part` and `is_unique` are each OR-ed with their previous value -/
+theorem C26_bridge_index_flags :
+    PonyVerif.Gen.SchemaParams.indexFlagUpdates =
+      ["column.is_pk = column.is_pk or (len(columns) == 1 and is_pk)",
+       "column.is_pk_part = column.is_pk_part or bool(is_pk)",
+       "column.is_unique = column.is_unique or (is_unique and len(columns) == 1)"] := rfl
+
 /-! ### distinctness -/
 
 theorem tableCols_nodup {s : Schema} (h : Inv s) (t : Name) : ((tableCols s t).map (·.name)).Nodup := by
@@ -161,7 +169,7 @@ theorem generate_inv {d : Dialect} {D : Decls} {s : Schema} (h : generate d D = 
   split at h
   · rename_i st _
     cases h
-    exact st.schema.2
+    exact ⟨st.schema.2.1, st.schema.2.2.1⟩
   · cases h
 
 /-- MAPPING, all declaration lists: if `generate_mapping` accepts the declarations, table names are pairwise
@@ -361,6 +369,23 @@ theorem C26_foreign_keys (d : Dialect) (D : Decls) (st : St d) (_h : generateSt 
 theorem C26_indexes (d : Dialect) (D : Decls) (st : St d) (_h : generateSt d D = .ok st) :
     ∀ p ∈ st.indexed, HasIdx st.schema.1 p.table p.cols p.isPk p.unique :=
   st.indexedOk
+
+/-- REGISTRIES (all operation lists) and MAPPING (all declaration lists): the column of every single-column unique
+    index - a unique attribute, a single-column primary key - carries the `is_unique` flag, whatever indexes, composite
+    keys or foreign keys were registered over the same column before or afterwards. `Column.get_sql` renders UNIQUE
+    from this flag only, so the constraint cannot get lost in the CREATE TABLE text. -/
+theorem C26_unique_flag (d : Dialect) :
+    (∀ (ops : List Op) (s : Schema), runOps d {} ops = .ok s → FlagInv s) ∧
+    (∀ (D : Decls) (st : St d), generateSt d D = .ok st → FlagInv st.schema.1) :=
+  ⟨fun _ _ h => runOps_flagInv flagInv_empty h, fun _ st _ => st.schema.2.2.2⟩
+
+def flagWitness : List Op :=
+  [.addTable ['t'] none, .addColumn ['t'] ['a'] true, .addColumn ['t'] ['b'] false,
+   .addIndex ['t'] .none [['a']] .no (some true) false, .addIndex ['t'] .none [['a'], ['b']] .no none false]
+
+/-- non-vacuous: a unique index on `a`, then a composite index over `a, b`: the column `a` is still flagged -/
+example : (match runOps .sqlite {} flagWitness with
+           | .ok s => s.columns.map (·.isUnique) | .error _ => []) = [true, false] := by decide
 
 /-- `generate` is the schema component of `generateSt` -/
 theorem C26_generate_state (d : Dialect) (D : Decls) (s : Schema) :
